@@ -241,3 +241,633 @@ class DictScript(Comp):
             L.append("dict\t%d\t%s" % (size, ",".join(ops)))
             L.append("dict\t%d\t%s" % (size, ",".join(ops + ["-" + hexs(ks[0]), "*" + hexs(ks[1])])))
         return L
+
+
+# ------------------------------------------------------------------------------------------------
+# C17 (part): API-level ownership / leak oracle over impl/t_own.c
+# ------------------------------------------------------------------------------------------------
+import re as _re
+
+_NSA = 'xmlns="urn:a"'
+_NSB = 'xmlns="urn:b"'
+_NSY = 'xmlns:yang="urn:ietf:params:xml:ns:yang:1"'
+
+# data parser / validation / misc option bits (src/parser_data.h, src/tree_data.h)
+_P_ONLY, _P_STRICT, _P_OPAQ, _P_NOSTATE, _P_WHEN_TRUE, _P_NO_NEW = 0x10000, 0x20000, 0x40000, 0x80000, 0x800000, 0x1000000
+_V_NOSTATE, _V_PRESENT, _V_MULTI = 1, 2, 4
+_NEW_OUTPUT, _NEW_STORE_ONLY, _NEW_PATH_UPDATE, _NEW_PATH_OPAQ, _NEW_ANY_USE = 0x01, 0x02, 0x20, 0x40, 0x100
+_DUP_REC, _DUP_NO_META, _DUP_PARENTS, _DUP_FLAGS = 1, 2, 4, 8
+_MERGE_DESTRUCT, _MERGE_DEFAULTS, _MERGE_FLAGS = 1, 2, 4
+
+
+def _own_line(cmds):
+    return "own\t" + "\t".join(" ".join(str(a) for a in c) for c in cmds)
+
+
+def _hx(s):
+    return "~" if s is None else hexs(s)
+
+
+# leaf name -> (valid values, invalid values) for the leaves of container /a:c and the top level
+_OWN_LEAVES = {
+    "i8": (["3", "7", "-5", "100", "11", "50"], ["200", "x", "", "-6", "1e3"]),
+    "s": (["a", "abc", "zzzzzz"], ["", "ABC", "toolongvalue", "a1"]),
+    "e": (["one", "two", "three"], ["four", "", "One"]),
+    "lr": (["a", "b", "q"], []),
+    "u": (["5", "x", "y", "abc"], ["toolong", "", "ab"]),
+    "idr": (["a:id1", "a:id2"], ["a:idb2", "id1x", "x:id1", ""]),
+    "m": (["1", "49", "50", "200"], ["256", "-1", "m"]),
+    "w": (["w", ""], []),
+    "sl": (["x", "y", "z", ""], []),
+    "ul": (["1", "2", "3", "4", "9"], ["256", "u", ""]),
+    "ca1": (["1"], []), "ca2": (["2"], []), "cb1": (["3"], []),
+    "top": (["t", "a", "b", ""], []),
+    "tul": (["m", "n", "o", "p"], []),
+    "sll": (["s1", "s2", "s1"], []),
+}
+_OWN_C_LEAVES = ["i8", "s", "e", "lr", "u", "idr", "m", "w", "sl", "ul", "ca1", "ca2", "cb1"]
+_OWN_TOP_LEAVES = ["top", "tul", "sll"]
+
+_OWN_PATHS_OK = [
+    ("/a:c/i8", "5"), ("/a:c/i8", "7"), ("/a:c/s", "abc"), ("/a:c/sl[.='x']", None), ("/a:c/sl", "y"), ("/a:c/ul[.='3']", None),
+    ("/a:c/ul", "4"), ("/a:c/ol[k='x']/v", "1"), ("/a:c/ol[k='y']", None), ("/a:l[k1='a'][k2='1']/v", "vv"),
+    ("/a:l[k2='2'][k1='b']/in/x", "xx"), ("/a:l[k1='a'][k2='1']", None), ("/a:ul2[k='q']", None), ("/a:ul2[k='q']/v", "1"),
+    ("/a:tul[.='v']", None), ("/a:tul", "m"), ("/a:top", "t"), ("/a:top", "a"), ("/a:kl[1]/a", "1"), ("/a:kl/a", "2"), ("/a:sll", "s"),
+    ("/a:c/p/man", "m"), ("/a:c/p", None), ("/a:c/ad", "<x/>"), ("/a:c/ad", '{"a:top":"x"}'), ("/a:c/ax", "text"),
+    ("/a:c/ax", "<top xmlns=\"urn:a\">1</top>"), ("/b:bc/bl", "b"), ("/b:bc/bll", "1"), ("/a:c/act/ai", "i"), ("/b:r/x", "x"),
+    ("/a:c/nn/nl", "n"), ("/a:c/ca1", "1"), ("/a:c/cb1", "3"), ("/a:c/w", "w"), ("/a:c/lr", "a"), ("/a:c/idr", "a:id1"),
+    ("/a:c/u", "x"), ("/a:c/e", "two"), ("/a:c/m", "77"), ("/a:c", None),
+]
+_OWN_PATHS_BAD = [
+    ("/a:c/nope", "1"), ("/a:c/i8[", "1"), ("/a:l[k1='a']/v", "v"), ("/a:l[k1='a'][k2='xx']/v", "v"), ("a:c/i8", "1"), ("/x:c", None),
+    ("/a:c/sl[.='x'", None), ("/a:l[k9='a'][k2='1']", None), ("//a:c", None), ("/a:c/ol[k='x']/k", "y"), ("/a:c[1]", None), ("/", None),
+    ("/a:c/i8", "999"), ("/a:c/s", "UPPER"), ("/a:c/e", "four"), ("/a:c/ul", "300"), ("/a:c/ul[.='300']", None), ("/a:l", None),
+    ("/a:c/ol", None), ("/a:tul[.='v']/x", None), ("/a:c/i8/x", "1"), ("/a:c/ad/x", None), ("/a:c/act/ao", "o"), ("/b:r/z", "1"),
+    ("/a:c/idr", "a:nope"), ("/a:l[k1='a'][k2='1'][k1='b']", None), ("/a:c/ol[k='x'][v='1']", None), ("/a:kl[0]", None),
+    ("/a:c/p/man[.='x']", None), ("/a:c/ol[1]", None), ("/a:c/ul[2]", None), ("i8", "1"), ("/a:c/a:i8/", "1"), ("/b:c", None),
+]
+_OWN_XPATH_OK = ["/a:c/*", "//*", "count(/a:l) > 1", "/a:l[k1='a']/v", "../a:top", "a:c/a:i8", ".", "/a:c/ul[.='3']", "//a:k[.='a']/..",
+                 "/a:c/i8 + 1 > 3", "/a:ul2[2]", "string(/a:top)", "/b:bc | /a:c", "deref(/a:c/lr)", "/a:c/ol[k='x']/v"]
+_OWN_XPATH_BAD = ["/a:c[", "/a:c/", "count(", "/x:c", "1 +", "/a:c/i8[.=']", "$v", "unknown-fn()", "", "/a:c//", "((", "/a:c/i8 and", "a:c[1",
+                  "count(1,2)", "/a:c/..//.[", "'abc", "current()/..[", "/a:c/i8 = ", "derived-from(/a:c/idr)", "re-match('a')"]
+
+_OWN_MODS_BAD = [
+    "module m1 {namespace \"urn:m1\"; prefix m1; leaf x {type string}",                                   # syntax
+    "module m1 {namespace \"urn:m1\"; prefix m1; leaf x {type string;}",                                  # unterminated
+    "module m1 {namespace \"urn:m1\"; prefix m1; import nonexistent {prefix n;} leaf x {type string;}}",  # import
+    "module m1 {namespace \"urn:m1\"; prefix m1; leaf r {type leafref {path \"/m1:none\";}}}",             # leafref target
+    "module m1 {namespace \"urn:m1\"; prefix m1; leaf x {type nope;}}",                                    # typedef
+    "module m1 {namespace \"urn:m1\"; prefix m1; container c1 {uses g;}}",                                  # grouping
+    "module m1 {namespace \"urn:m1\"; prefix m1; identity i1 {base nobase;}}",                              # identity
+    "module m1 {namespace \"urn:m1\"; prefix m1; leaf x {type int8; default 999;}}",                       # default value
+    "module m1 {namespace \"urn:m1\"; prefix m1; leaf x {type string {pattern \"[a-\";}}}",                # pattern
+    "module m1 {yang-version 1.1; namespace \"urn:m1\"; prefix m1; feature f1; leaf x {if-feature \"f1 and\"; type string;}}",
+    "module m1 {yang-version 1.1; namespace \"urn:m1\"; prefix m1; feature f1; leaf x {if-feature \"not (not f1)\"; type string;}"
+    " leaf y {if-feature \"f2\"; type string;}}",
+    "module m1 {namespace \"urn:m1\"; prefix m1; import t {prefix t;} deviation /t:tc/t:zz {deviate not-supported;}}",
+    "module m1 {namespace \"urn:m1\"; prefix m1; import t {prefix t;} augment /t:nope {leaf ax {type string;}}}",
+    "module m1 {namespace \"urn:m1\"; prefix m1; import t {prefix t;} augment /t:tc {leaf tl {type string;}}}",     # duplicate via augment
+    "module m1 {namespace \"urn:m1\"; prefix m1; leaf x {type string;} leaf x {type int8;}}",              # duplicate names
+    "module m1 {namespace \"urn:a\"; prefix m1; leaf x {type string;}}",                                     # namespace clash
+    "module m1 {namespace \"urn:m1\"; prefix m1; leaf x {type string; must \"count(\";}}",                 # xpath
+    "module m1 {namespace \"urn:m1\"; prefix m1; leaf x {type union {type int8; type leafref {path \"../nn\";}}}}",
+    "module m1 {namespace \"urn:m1\"; prefix m1; leaf x {type enumeration {enum a; enum a;}}}",
+    "module m1 {namespace \"urn:m1\"; prefix m1; list li {key k; leaf v {type string;}}}",                  # key missing
+    "module m1 {namespace \"urn:m1\"; prefix m1; leaf x {type int8 {range \"10..1\";}}}",
+    "module m1 {namespace \"urn:m1\"; prefix m1; leaf x {type string; mandatory true; default d;}}",
+    "module m1 {namespace \"urn:m1\"; prefix m1; typedef t1 {type t2;} typedef t2 {type t1;} leaf x {type t1;}}",
+    "module m1 {namespace \"urn:m1\"; prefix m1; grouping g {uses g;} uses g;}",
+    "module t {namespace \"urn:t\"; prefix t; revision 2030-01-01; container tc {leaf tl {type nope;}}}",   # broken newer revision of t
+    "module a {yang-version 1.1; namespace \"urn:a\"; prefix a; revision 2030-01-01; leaf top {type nope;}}",
+    "submodule s1 {belongs-to nope {prefix n;}}",
+    "module m1 {namespace \"urn:m1\"; prefix m1; extension e1; m1:e2 x;}",
+    "",
+    "module",
+    "module m1 {namespace \"urn:m1\"; prefix m1; leaf x {type string;}} trailing",
+    "module m1 {namespace \"urn:m1\"; prefix m1; import ietf-yang-metadata {prefix md;} md:annotation a1 {type nope;}}",
+    "module m1 {namespace \"urn:m1\"; prefix m1; rpc r1 {input {leaf x {type leafref {path \"/m1:zz\";}}}}}",
+    "module m1 {namespace \"urn:m1\"; prefix m1; leaf x {type instance-identifier; default \"/m1:y\";}}",
+    "module m1 {namespace \"urn:m1\"; prefix m1; leaf x {type identityref {base m1:nope;}}}",
+    "module m1 {namespace \"urn:m1\"; prefix m1; leaf x {type bits {bit b1 {position 1;} bit b2 {position 1;}}}}",
+    "module m1 {namespace \"urn:m1\"; prefix m1; leaf x {type decimal64;}}",
+    "module m1 {namespace \"urn:m1\"; prefix m1; choice ch {default nocase; case c1 {leaf x {type string;}}}}",
+    "module m1 {namespace \"urn:m1\"; prefix m1; leaf-list ll {type string; default a; default a;}}",
+]
+# loads that succeed (stand-alone modules: nothing that the data trees refer to is recompiled)
+_OWN_MODS_OK = [
+    "module v1 {namespace \"urn:v1\"; prefix v1; leaf vl {type string; default dv;} container vc {leaf x {type int8;}}}",
+    "module v2 {namespace \"urn:v2\"; prefix v2; typedef tt {type string {pattern \"[a-z]*\";}} leaf-list vll {type tt;}}",
+]
+_OWN_MOD_V1_BROKEN_REV = "module v1 {namespace \"urn:v1\"; prefix v1; revision 2031-01-01; leaf vl {type nope;}}"
+
+
+class _OwnDoc:
+    """random instance document of modules a/b as XML text (mostly valid; defects on request)"""
+
+    def __init__(self, rng):
+        self.rng = rng
+
+    def leafv(self, name, bad=0.0):
+        ok, ko = _OWN_LEAVES[name]
+        if ko and self.rng.random() < bad:
+            return self.rng.choice(ko)
+        return self.rng.choice(ok)
+
+    def cont_c(self, bad, k1s, invalid):
+        rng = self.rng
+        ch = []
+        i8 = None
+        if rng.random() < 0.6:
+            i8 = self.leafv("i8", bad)
+            ch.append("<i8>%s</i8>" % i8)
+        for nm in ("s", "e", "u", "idr"):
+            if rng.random() < 0.3:
+                ch.append("<%s>%s</%s>" % (nm, self.leafv(nm, bad), nm))
+        if rng.random() < 0.3:
+            # leafref: existing key or (invalid) dangling
+            v = rng.choice(k1s) if (k1s and not (invalid and rng.random() < 0.5)) else "dangling"
+            ch.append("<lr>%s</lr>" % v)
+        if rng.random() < 0.3:
+            ch.append("<m>%s</m>" % (rng.choice(["50", "200"]) if (invalid and rng.random() < 0.5) else rng.choice(["1", "49"])))
+        if rng.random() < 0.3:
+            try:
+                wok = i8 is not None and int(i8) > 10
+            except ValueError:
+                wok = False
+            if wok or (invalid and rng.random() < 0.7):
+                ch.append("<w>w</w>")
+        for v in rng.sample(["x", "y", "z", "zz"], rng.randrange(0, 4)):
+            ch.append("<sl>%s</sl>" % v)
+        uls = rng.sample(["1", "2", "3", "4", "9"], rng.randrange(0, 5))
+        if invalid and uls and rng.random() < 0.3:
+            uls.append(uls[0])
+        for v in uls:
+            ch.append("<ul>%s</ul>" % v)
+        if rng.random() < 0.25:
+            ch.append(rng.choice(["<ad><x/></ad>", "<ad><top %s>in</top></ad>" % _NSA, "<ad/>", "<ad><c %s><i8>1</i8></c></ad>" % _NSA]))
+        if rng.random() < 0.2:
+            ch.append(rng.choice(["<ax>text</ax>", "<ax><q><r/></q></ax>", "<ax/>"]))
+        r = rng.random()
+        if r < 0.2:
+            ch.append("<ca1>1</ca1>")
+            if rng.random() < 0.5:
+                ch.append("<ca2>2</ca2>")
+            if invalid and rng.random() < 0.5:
+                ch.append("<cb1>3</cb1>")
+        elif r < 0.35:
+            ch.append("<cb1>3</cb1>")
+        if rng.random() < 0.3:
+            if invalid and rng.random() < 0.6:
+                ch.append("<p><opt>o</opt></p>")        # mandatory leaf missing
+            else:
+                ch.append("<p><man>m</man>%s</p>" % ("<opt>dd</opt>" if rng.random() < 0.3 else ""))
+        for k in rng.sample(["x", "y", "z", "q"], rng.randrange(0, 4)):
+            ch.append("<ol><k>%s</k>%s</ol>" % (k, "<v>%d</v>" % rng.randrange(0, 9) if rng.random() < 0.5 else ""))
+        rng.shuffle(ch)
+        return "<c %s>%s</c>" % (_NSA, "".join(ch))
+
+    def doc(self, invalid=False, bad=0.0, state=True):
+        rng = self.rng
+        parts = []
+        keys = [(k1, k2) for k1 in "abc" for k2 in "123"]
+        ls = rng.sample(keys, rng.randrange(0, 4))
+        if invalid and ls and rng.random() < 0.3:
+            ls.append(ls[0])            # duplicate instance
+        k1s = [k[0] for k in ls]
+        for k1, k2 in ls:
+            v = ""
+            if rng.random() < 0.5:
+                v = "<v>%s</v>" % rng.choice(["v1", "v2", "v3"] if not invalid else ["v1"])
+            inn = "<in><x>x</x></in>" if rng.random() < 0.3 else ""
+            if invalid and rng.random() < 0.15:
+                parts.append("<l %s><k1>%s</k1>%s</l>" % (_NSA, k1, v))     # key missing
+            else:
+                parts.append("<l %s><k1>%s</k1><k2>%s</k2>%s%s</l>" % (_NSA, k1, k2, v, inn))
+        if rng.random() < 0.75:
+            parts.append(self.cont_c(bad, k1s, invalid))
+        for k in rng.sample(["a", "b", "c", "d", "e"], rng.randrange(0, 5)):
+            parts.append("<ul2 %s><k>%s</k>%s</ul2>" % (_NSA, k, "<v>%s</v>" % k if rng.random() < 0.4 else ""))
+        for v in rng.sample(["m", "n", "o", "p"], rng.randrange(0, 4)):
+            parts.append("<tul %s>%s</tul>" % (_NSA, v))
+        if rng.random() < 0.4:
+            parts.append("<top %s>%s</top>" % (_NSA, rng.choice(["t", "a", "b"])))
+        if state and rng.random() < 0.25:
+            for _ in range(rng.randrange(1, 4)):
+                parts.append("<kl %s><a>%s</a></kl>" % (_NSA, rng.choice("12")))
+        if state and rng.random() < 0.2:
+            for _ in range(rng.randrange(1, 4)):
+                parts.append("<sll %s>%s</sll>" % (_NSA, rng.choice(["s1", "s2"])))
+        if rng.random() < 0.3:
+            parts.append("<bc %s><bl>b</bl>%s</bc>" % (_NSB, "".join("<bll>%d</bll>" % i for i in rng.sample(range(5), rng.randrange(0, 3)))))
+        if rng.random() < 0.08:
+            parts.append('<top %s xmlns:a="urn:a" a:note="%s">m</top>' % (_NSA, "" if invalid else "nt") if not any("<top" in p for p in parts)
+                         else "")
+        rng.shuffle(parts)
+        return "".join(parts)
+
+    def mutate(self, d):
+        """malformed variants of a document"""
+        rng = self.rng
+        r = rng.random()
+        if not d:
+            return "<"
+        if r < 0.3:
+            return d[:rng.randrange(1, len(d))]                                  # truncated
+        if r < 0.45:
+            i = d.find(">", rng.randrange(len(d)))
+            i = len(d) if i < 0 else i + 1
+            return d[:i] + rng.choice(["<zz %s/>" % _NSA, "<zz xmlns=\"urn:q\">1</zz>", "<zz/>", "text", "<c %s><zz/></c>" % _NSA]) + d[i:]
+        if r < 0.6:
+            return _re.sub(r">([a-z0-9]+)<", lambda m: ">" + rng.choice(["", "\x01", "999", "&amp;", "&bogus;"]) + "<", d, count=1)
+        if r < 0.7:
+            return d.replace("</", "<", 1)
+        if r < 0.8:
+            return d.replace(_NSA, 'xmlns="urn:zz"', 1)
+        if r < 0.9:
+            return d.replace(_NSA, _NSA + " " + _NSY + ' yang:operation="%s"' % rng.choice(["bogus", "create", "delete"]), 1)
+        return d + d                                                             # everything twice
+
+
+_OWN_JSON = [
+    ('{"a:c":{"i8":3,"s":"abc","sl":["x","y"],"ul":[3,1,2],"ol":[{"k":"x","v":1},{"k":"y"}]},"a:top":"t"}', True),
+    ('{"a:l":[{"k1":"a","k2":1,"v":"v1"},{"k1":"b","k2":2}],"a:c":{"lr":"a","p":{"man":"m"}},"a:ul2":[{"k":"a"},{"k":"b"}]}', True),
+    ('{"a:tul":["m","n"],"b:bc":{"bl":"b","bll":[1,2]},"a:c":{"ad":{"a:top":"in"},"ax":"t","u":"x","idr":"a:id1"}}', True),
+    ('{"a:c":{"i8":3,"@i8":{"a:note":"n1"}},"a:top":"t","@a:top":{"a:num":5}}', True),
+    ('{"a:c":{"i8":300}}', False), ('{"a:c":{"i8":3,', False), ('{"a:c":{"nope":1}}', False), ('{"a:c":{"i8":"3"}}', False),
+    ('{"a:l":[{"k1":"a","k2":1},{"k1":"a","k2":1}]}', False), ('{"a:l":[{"k1":"a"}]}', False), ('{"a:c":{"ul":[1,1]}}', False),
+    ('{"a:c":[1]}', False), ('{"x:c":{}}', False), ('{"a:c":{"p":{}}}', False), ('{"a:c":{"i8":null}}', False), ('[', False), ('', True),
+    ('{"a:c":{"i8":3,"@i8":{"a:note":""}}}', False), ('{"a:c":{"@":{"a:note":"x"}}}', True), ('{"a:c":{"lr":"zz"}}', False),
+    ('{"a:c":{"ca1":"1","cb1":"3"}}', False), ('{"a:c":{"m":60}}', False), ('{"a:c":{"w":"w"}}', False), ('{"a:top":"t","a:top":"u"}', False),
+]
+
+_OWN_OPS_XML = [
+    ("r", '<r %s><x>1</x></r>' % _NSB, True), ("r", '<r %s><x>1</x><y>t</y></r>' % _NSB, True), ("r", '<r %s><x>1</x><zz/></r>' % _NSB, False),
+    ("r", '<r %s><x>1</x>' % _NSB, False), ("r", '<r %s><z>1</z></r>' % _NSB, False), ("r", '<bc %s/>' % _NSB, False),
+    ("r", '<c %s><act><ai>i</ai></act></c>' % _NSA, True), ("r", '<c %s><act><ai>i</ai></act><i8>1</i8></c>' % _NSA, False),
+    ("r", '<c %s><act><ao>o</ao></act></c>' % _NSA, False), ("r", '<c %s><i8>1</i8></c>' % _NSA, False),
+    ("n", '<n %s><msg>m</msg></n>' % _NSB, True), ("n", '<n %s><msg>m</msg><msg>n</msg></n>' % _NSB, False), ("n", '<n %s><q/></n>' % _NSB, False),
+    ("n", '<c %s><nn><nl>x</nl></nn></c>' % _NSA, True), ("n", '<c %s><nn><nl>x</nl></nn><nn/></c>' % _NSA, False), ("n", '<r %s/>' % _NSB, False),
+    ("r", '', False), ("n", '<n %s>' % _NSB, False), ("r", '<r %s><x>1</x></r><r %s><x>2</x></r>' % (_NSB, _NSB), False),
+]
+_OWN_OPS_JSON = [
+    ("r", '{"b:r":{"x":"1"}}', True), ("r", '{"b:r":{"x":"1","q":1}}', False), ("n", '{"b:n":{"msg":"m"}}', True), ("n", '{"b:n":{"msg":', False),
+    ("r", '{"a:c":{"act":{"ai":"i"}}}', True), ("n", '{"a:c":{"nn":{"nl":"x"}}}', True), ("r", '{"b:bc":{}}', False),
+]
+_OWN_REPLY_XML = [('<z>1</z>', True), ('<z>999</z>', False), ('<x>1</x>', False), ('<z>1</z><z>2</z>', False), ('<z>1', False), ('', True)]
+
+
+class Ownership:
+    """C17 (part): random sequences of data-tree API calls, failing ones included, over two contexts with the modules
+    a, b, t (impl/t_own.c). After every call the driver checks that outputs are NULL on failure, that inputs which are not
+    consumed and slots that are not arguments are unchanged and that links are consistent; at the end of every case
+    everything the caller holds is freed, the dictionaries must be back at their state after module loading, ly_ctx_destroy
+    must not warn about strings that were not freed, no heap block allocated during the case may be left (allocation
+    tracker, every build) and LeakSanitizer must not report a new leak (ASan build); double frees / use after free abort
+    the case under ASan."""
+    name = "ownership"
+    driver = "t_own"
+    kinds = ["asan"]
+    quick_sanitize = True
+    leaks = True
+    timeout = 900
+
+    def n(self, tier, quick, thorough, scale=1.0):
+        return max(1, int((thorough if tier == "thorough" else quick) * scale))
+
+    # ---- command builders (see the header comment of impl/t_own.c) -----------------------------
+    @staticmethod
+    def parse(ctx, doc, dst, popts=0, vopts=0, fmt="x"):
+        return ["parse", ctx, fmt, popts, vopts, _hx(doc), dst]
+
+    @staticmethod
+    def node(rng, slots=6):
+        return "%d.%d" % (rng.randrange(slots), rng.choice([0, 0, 1, 1, 2, 3, 4, 5, 6, 8, 10, 13, 17, 25]))
+
+    def rand_cmd(self, rng, dg):
+        """one random command; slots 0..5"""
+        S = 6
+        N = lambda: self.node(rng, S)       # noqa: E731
+        sl = lambda: rng.randrange(S)       # noqa: E731
+        r = rng.random
+        k = rng.choice(self.KINDS)
+        if k == "parse":
+            inv = r() < 0.35
+            d = dg.doc(invalid=inv, bad=0.3 if inv else 0.0)
+            if r() < 0.25:
+                d = dg.mutate(d)
+            po = rng.choice([0, 0, _P_ONLY, _P_ONLY, _P_ONLY | _P_STRICT, _P_ONLY | _P_OPAQ, _P_STRICT, _P_OPAQ, _P_ONLY | _P_NO_NEW,
+                             _P_WHEN_TRUE, _P_NOSTATE | _P_ONLY, _P_STRICT | _P_OPAQ])
+            return self.parse(rng.choice("0001"), d, sl(), po, rng.choice([0, 0, _V_PRESENT, _V_NOSTATE, _V_MULTI]))
+        if k == "parsej":
+            d, ok = rng.choice(_OWN_JSON)
+            return self.parse(rng.choice("0001"), d, sl(), rng.choice([0, _P_ONLY, _P_ONLY | _P_OPAQ, _P_STRICT, 0x4000000]),
+                              rng.choice([0, _V_PRESENT]), "j")
+        if k == "parsep":
+            d = rng.choice(["<i8>4</i8>", "<i8>400</i8>", "<sl>n</sl><sl>m</sl>", "<ol><k>n</k></ol>", "<zz/>", "<x>1</x>", "<v>vv</v>",
+                            "<k1>zz</k1>", "<man>m</man>", "<i8>4</i8><i8>5</i8>", "<ul>7</ul", "<in><x>y</x></in>", ""])
+            d = d.replace(">", " " + _NSA + ">", 1) if (d and r() < 0.9) else d
+            return ["parsep", N(), "x", rng.choice([_P_ONLY, _P_ONLY | _P_STRICT, 0, _P_STRICT, _P_ONLY | _P_OPAQ]),
+                    rng.choice([0, _V_PRESENT]), _hx(d)]
+        if k == "parseop":
+            if r() < 0.7:
+                ty, d, ok = rng.choice(_OWN_OPS_XML)
+                fmt = "x"
+            else:
+                ty, d, ok = rng.choice(_OWN_OPS_JSON)
+                fmt = "j"
+            return ["parseop", rng.choice("0001"), fmt, ty, _hx(d), sl()]
+        if k == "reply":
+            d, ok = rng.choice(_OWN_REPLY_XML)
+            d = d.replace(">", " " + _NSB + ">", 1) if d else d
+            return ["parseop", rng.choice("0001"), "x", "y", _hx(d), sl(), N()]
+        if k == "term":
+            top = r() < 0.25
+            nm = rng.choice(_OWN_TOP_LEAVES if top else _OWN_C_LEAVES)
+            val = dg.leafv(nm, 0.3)
+            if r() < 0.12:
+                nm = rng.choice(["nope", "c", "l", "", "i8x"])
+            mod = rng.choice(["a0", "a0", "~", "a1", "b0"]) if not top else rng.choice(["a0", "a0", "a1", "~", "b0"])
+            return ["term", "~" if (top or r() < 0.05) else N(), mod, _hx(nm), _hx(val),
+                    rng.choice([0, 0, 0, _NEW_STORE_ONLY, _NEW_OUTPUT]), sl()]
+        if k == "inner":
+            nm = rng.choice(["c", "p", "in", "act", "nn", "bc", "r", "n", "nope", "l", "i8"])
+            return ["inner", rng.choice(["~", "~", N(), N()]), rng.choice(["a0", "a0", "b0", "~", "a1", "b1"]), _hx(nm), rng.choice([0, 0, 1]), sl()]
+        if k == "list":
+            nm = rng.choice(["l", "l", "ol", "ul2", "kl", "nope", "c"])
+            k1 = rng.choice(["a", "b", "c", "x", ""])
+            k2 = rng.choice(["1", "2", "3", "300", "x", ""])
+            par = "~" if nm in ("l", "ul2", "kl") and r() < 0.9 else N()
+            return ["list", par, rng.choice(["a0", "a0", "~", "a1"]), _hx(nm), _hx(k1), _hx(k2), rng.choice([0, 0, _NEW_STORE_ONLY]), sl()]
+        if k == "list2":
+            nm = rng.choice(["l", "l", "ol", "ul2", "kl", "nope"])
+            keys = rng.choice(["[k1='a'][k2='1']", "[k2='2'][k1='b']", "[k1='a']", "[k1='a'][k2='x']", "[k='x']", "[k='y']", "", None,
+                               "[k1='a'][k2='1'][k1='b']", "[k1='a'", "[zz='1']", "[k1=\"a\"][k2=\"3\"]", "[.='a']", "[1]"])
+            par = "~" if nm in ("l", "ul2", "kl") and r() < 0.9 else N()
+            return ["list2", par, rng.choice(["a0", "a0", "~", "a1"]), _hx(nm), _hx(keys), 0, sl()]
+        if k == "any":
+            nm = rng.choice(["ad", "ad", "ax", "ax", "nope", "i8"])
+            vt = rng.choice("sxjt")
+            if vt == "t":
+                val = sl()
+            else:
+                val = _hx(rng.choice(["<x/>", "<top %s>v</top>" % _NSA, "<x", "text", '{"a:top":"v"}', '{"a:top":', "", None, "lybx",
+                                      "<c %s><i8>999</i8></c>" % _NSA, "<a><b><c/></b></a>", '{"x":1}', "{"]))
+            return ["any", N() if r() < 0.9 else "~", rng.choice(["a0", "a0", "~", "~", "a1"]), _hx(nm), vt, val,
+                    rng.choice([0, _NEW_ANY_USE, _NEW_ANY_USE, _NEW_OUTPUT]), sl()]
+        if k == "opaq":
+            c = rng.choice(["opaq", "opaq2"])
+            return [c, rng.choice(["~", N(), N()]), rng.choice("00~1"), _hx(rng.choice(["oq", "i8", "zz", ""])), _hx(rng.choice(["v", "", None])),
+                    _hx(rng.choice([None, "a", "p", ""])), _hx(rng.choice(["a", "urn:a", "urn:q", "nomod", "", None])), sl()]
+        if k == "meta":
+            nm = rng.choice(["note", "num", "a:note", "a:num", "nope", "x:note", "yang:operation", "operation", "", ":"])
+            val = rng.choice(["n1", "5", "", "toolongnote", "x", "create", "bogus"])
+            return ["meta", N(), rng.choice("~~01"), rng.choice(["a0", "a0", "~", "a1", "y0", "b0"]), _hx(nm), _hx(val),
+                    rng.choice([0, 0, _NEW_STORE_ONLY, 0x10])]
+        if k == "attr":
+            return ["attr", N(), _hx(rng.choice([None, "a", "nomod", ""])), _hx(rng.choice(["at", "a:at", "x:at", ":"])), _hx(rng.choice(["v", "", None]))]
+        if k == "path":
+            p, v = rng.choice(_OWN_PATHS_OK) if r() < 0.6 else rng.choice(_OWN_PATHS_BAD)
+            opts = rng.choice([0, 0, 0, _NEW_PATH_UPDATE, _NEW_PATH_UPDATE, _NEW_PATH_OPAQ, _NEW_OUTPUT, _NEW_STORE_ONLY,
+                               _NEW_PATH_UPDATE | _NEW_PATH_OPAQ, 0x80 | _NEW_PATH_OPAQ])
+            if "act/ao" in p or "r/z" in p:
+                opts |= rng.choice([0, _NEW_OUTPUT])
+            par = "%d.0" % sl() if (p.startswith("/") and r() < 0.85) else N()
+            return [rng.choice(["path", "path", "path1"]), par, rng.choice("~~001"), _hx(p), _hx(v), opts]
+        if k == "ins":
+            return ["ins", rng.choice("ccssba"), N(), N()]
+        if k == "unlink":
+            return ["unlink", N(), sl()]
+        if k == "free":
+            return ["free", sl()]
+        if k == "freen":
+            return ["freen", N()]
+        if k == "freesib":
+            return ["freesib", N()]
+        if k == "chg":
+            nm = rng.choice(list(_OWN_LEAVES))
+            return ["chg", N(), _hx(dg.leafv(nm, 0.3))]
+        if k == "chgmeta":
+            return ["chgmeta", N(), rng.randrange(3), _hx(rng.choice(["n2", "7", "", "toolongnote", "x", "replace", "none"]))]
+        if k == "dup":
+            opts = rng.choice([0, _DUP_REC, _DUP_REC, _DUP_REC | _DUP_FLAGS, _DUP_PARENTS, _DUP_PARENTS | _DUP_REC, _DUP_NO_META | _DUP_REC,
+                               0x10, 0x20 | _DUP_REC, 0x40 | _DUP_REC, 0x7f, 0x80, 0xffffffff])
+            return ["dup", N(), rng.choice(["~", "~", "~", N()]), opts, sl(), rng.choice("sb"), rng.choice("~~~~01")]
+        if k == "merge":
+            return ["merge", sl(), sl(), rng.choice([0, 0, _MERGE_DESTRUCT, _MERGE_DESTRUCT, _MERGE_DEFAULTS, _MERGE_FLAGS, 7, 3, 5]), rng.choice("ts")]
+        if k == "diff":
+            return ["diff", sl(), sl(), rng.choice([0, 0, 1]), sl()]
+        if k == "apply":
+            return ["apply", sl(), sl()]
+        if k == "rev":
+            return ["rev", sl(), sl()]
+        if k == "dmerge":
+            return ["dmerge", sl(), sl(), rng.choice([0, 1])]
+        if k == "val":
+            return ["val", sl(), rng.choice("~~~01"), rng.choice([0, 0, _V_PRESENT, _V_PRESENT, _V_NOSTATE, _V_MULTI, 0x10, 0x20, _V_MULTI | _V_PRESENT]),
+                    rng.choice([0, 1, 1]), sl()]
+        if k == "valmod":
+            return ["valmod", sl(), rng.choice(["a0", "a0", "b0", "a1", "t0"]), rng.choice([0, 0, _V_NOSTATE, _V_MULTI, 0x20, _V_PRESENT]),
+                    rng.choice([0, 1]), sl()]
+        if k == "valop":
+            return ["valop", N(), rng.choice(["~", sl()]), rng.choice("rny"), rng.choice([0, 1]), sl()]
+        if k == "impl":
+            return ["impl", sl(), rng.choice("~~~01"), rng.choice([0, 0, 1, 2, 4, 8, 3]), rng.choice([0, 1]), sl()]
+        if k == "xfind":
+            return [rng.choice(["xfind", "xeval"]), N(), _hx(rng.choice(_OWN_XPATH_OK) if r() < 0.5 else rng.choice(_OWN_XPATH_BAD))]
+        if k == "print":
+            return ["print", N(), rng.choice("xxjjb"), rng.choice([0, 1, 2, 0x10, 0x20, 0x40, 0x41, 0x81, 0x09, 0x04])]
+        if k == "lys":
+            return ["lys", rng.choice("001"), _hx(rng.choice(_OWN_MODS_BAD))]
+        raise AssertionError(k)
+
+    KINDS = (["parse"] * 6 + ["parsej"] * 2 + ["parsep"] * 2 + ["parseop"] * 2 + ["reply"] + ["term"] * 4 + ["inner"] * 2 + ["list"] * 2 +
+             ["list2"] * 2 + ["any"] * 4 + ["opaq"] * 2 + ["meta"] * 3 + ["attr"] + ["path"] * 6 + ["ins"] * 8 + ["unlink"] * 3 + ["free"] +
+             ["freen"] * 3 + ["freesib"] + ["chg"] * 3 + ["chgmeta"] + ["dup"] * 5 + ["merge"] * 5 + ["diff"] * 4 + ["apply"] * 4 + ["rev"] * 2 +
+             ["dmerge"] * 2 + ["val"] * 3 + ["valmod"] + ["valop"] + ["impl"] * 2 + ["xfind"] * 2 + ["print"] * 2 + ["lys"] * 2)
+
+    # ---- fixed scripts: the deliberately failing calls, one construct per case ------------------------------------------
+    def fixed(self):
+        P = self.parse
+        base = ('<l %s><k1>a</k1><k2>1</k2><v>v1</v></l><l %s><k1>b</k1><k2>2</k2></l><c %s><i8>11</i8><s>abc</s><lr>a</lr><w>w</w>'
+                '<sl>x</sl><sl>y</sl><ul>1</ul><ul>2</ul><ul>3</ul><ad><x/></ad><ca1>1</ca1><p><man>m</man></p><ol><k>x</k><v>1</v></ol>'
+                '<ol><k>y</k></ol></c><ul2 %s><k>a</k></ul2><ul2 %s><k>b</k></ul2><tul %s>m</tul><tul %s>n</tul><top %s>t</top>'
+                % ((_NSA,) * 8))
+        other = ('<c %s><i8>5</i8><sl>z</sl><ul>3</ul><ul>1</ul><ol><k>y</k></ol><ol><k>x</k></ol><cb1>3</cb1></c><ul2 %s><k>b</k></ul2>'
+                 '<ul2 %s><k>c</k></ul2><ul2 %s><k>a</k></ul2><tul %s>n</tul><tul %s>o</tul><bc %s><bl>b</bl></bc>'
+                 % ((_NSA,) * 6 + (_NSB,)))
+        st = '<kl %s><a>1</a></kl><kl %s><a>2</a></kl><sll %s>s1</sll><sll %s>s1</sll>' % ((_NSA,) * 4)
+        B = [P("0", base, 0, _P_ONLY), P("0", other, 1, _P_ONLY), P("1", base, 2, _P_ONLY), P("0", st, 3, _P_ONLY)]
+        L = []
+
+        def case(*cmds, setup=B):
+            L.append(_own_line(list(setup) + list(cmds)))
+
+        h = _hx
+        # creation calls with bad arguments
+        case(["term", "0.3", "~", h("i8"), h("999"), 0, 5], ["term", "0.3", "~", h("nope"), h("1"), 0, 5], ["term", "~", "~", h("top"), h("x"), 0, 5],
+             ["term", "0.3", "a1", h("s"), h("abc"), 0, 5], ["term", "~", "a0", h("top"), h("x"), 0, 5], ["term", "0.3", "~", h("s"), h("UP"), 0, 5],
+             ["term", "0.3", "~", h("e"), h("four"), 0, 5], ["term", "0.3", "~", h("u"), h("toolong"), 0, 5], ["term", "0.3", "~", h("idr"), h("a:zz"), 0, 5])
+        case(["inner", "~", "a0", h("nope"), 0, 5], ["inner", "~", "a0", h("l"), 0, 5], ["inner", "0.0", "~", h("c"), 0, 5], ["inner", "~", "~", h("c"), 0, 5],
+             ["list", "~", "a0", h("l"), h("a"), h("300"), 0, 5], ["list", "~", "a0", h("c"), h("a"), h("1"), 0, 5],
+             ["list2", "~", "a0", h("l"), h("[k1='a']"), 0, 5], ["list2", "~", "a0", h("l"), h("[k1='a'][k2='x']"), 0, 5],
+             ["list2", "~", "a0", h("l"), h("[k1='a'"), 0, 5], ["list2", "~", "a0", h("l"), h("[k1='a'][k2='1'][k1='b']"), 0, 5],
+             ["list2", "~", "a0", h("l"), h("[k1='a'][k2='1']"), 0, 5])
+        # anydata / anyxml: value variants; consumed tree only on success
+        case(["any", "0.3", "~", h("ad"), "t", 1, _NEW_ANY_USE, 5], ["any", "0.3", "~", h("nope"), "t", 3, _NEW_ANY_USE, 5],
+             ["any", "0.3", "a1", h("ad"), "t", 3, _NEW_ANY_USE, 5], ["any", "0.3", "~", h("ax"), "t", 3, 0, 5],
+             ["any", "0.3", "~", h("ad"), "x", h("<x"), _NEW_ANY_USE, 5], ["any", "0.3", "~", h("ad"), "j", h('{"a:top":'), _NEW_ANY_USE, 5],
+             ["any", "0.3", "~", h("ad"), "s", h("plain"), _NEW_ANY_USE, 5], ["any", "0.3", "~", h("ax"), "s", h("plain"), _NEW_ANY_USE, 5],
+             ["any", "0.3", "~", h("ax"), "x", h("<x"), _NEW_ANY_USE, 5], ["any", "0.3", "~", h("nope"), "s", h("plain"), _NEW_ANY_USE, 5],
+             ["any", "~", "a0", h("ad"), "s", h("<x/>"), 0, 5])
+        case(["opaq", "~", "~", h("oq"), h("v"), "~", h("a"), 5], ["opaq", "~", "0", h("oq"), h("v"), h("p"), h("a"), 5],
+             ["opaq2", "~", "0", h("oq"), h("v"), "~", h("urn:q"), 5], ["attr", "5.0", h("a"), h("a:at"), h("v")], ["attr", "0.0", "~", h("at"), h("v")],
+             ["meta", "5.0", "~", "a0", h("note"), h("n"), 0], ["meta", "0.0", "~", "a0", h("note"), h(""), 0], ["meta", "0.0", "~", "a0", h("nope"), h("x"), 0],
+             ["meta", "0.0", "~", "~", h("note"), h("x"), 0], ["meta", "0.0", "1", "a0", h("note"), h("x"), 0], ["meta", "0.0", "~", "a0", h("note"), h("ok"), 0],
+             ["meta", "0.0", "~", "a0", h("num"), h("x"), 0], ["chgmeta", "0.0", 0, h("")], ["chgmeta", "0.0", 0, h("toolongnote")], ["chgmeta", "0.0", 0, h("ok2")])
+        for i in range(0, len(_OWN_PATHS_BAD), 9):
+            case(*[["path", "0.0", "~", h(p), h(v), o] for p, v in _OWN_PATHS_BAD[i:i + 9] for o in (0, _NEW_PATH_UPDATE, _NEW_PATH_OPAQ)])
+        case(*[["path", "5.0", rng_ctx, h(p), h(v), 0] for p, v in _OWN_PATHS_BAD[:12] for rng_ctx in ("0",)])
+        case(["path", "0.0", "1", h("/a:top"), h("x"), 0], ["path", "0.0", "~", h("/a:top"), h("t"), 0], ["path", "0.0", "~", h("/a:top"), h("t"), _NEW_PATH_UPDATE],
+             ["path", "0.0", "~", h("/a:top"), h("u"), _NEW_PATH_UPDATE], ["path", "0.0", "~", h("/a:c/i8"), h("999"), _NEW_PATH_UPDATE],
+             ["path", "0.0", "~", h("/a:c/i8"), h("999"), _NEW_PATH_OPAQ], ["path", "0.0", "~", h("/a:l"), "~", _NEW_PATH_OPAQ],
+             ["path", "0.0", "~", h("/a:l[k1='n'][k2='9']/in/x"), h("deep"), 0], ["path", "0.0", "~", h("/a:l[k1='n'][k2='8']/in/nope"), h("deep"), 0])
+        # insertion into wrong places: must fail, must not consume nor unlink
+        for how in "csba":
+            case(["ins", how, "0.0", "0.9"], ["ins", how, "0.3", "1.0"], ["ins", how, "0.5", "1.1"], ["ins", how, "0.3", "2.3"], ["ins", how, "2.0", "0.3"],
+                 ["ins", how, "0.4", "1.2"], ["ins", how, "3.0", "1.2"], ["ins", how, "0.14", "1.3"], ["ins", how, "0.12", "1.3"], ["ins", how, "1.3", "0.12"],
+                 ["ins", how, "0.9", "1.2"], ["ins", how, "0.10", "1.2"], ["ins", how, "0.9", "0.12"], ["ins", how, "1.12", "0.30"], ["ins", how, "0.30", "1.14"])
+        # frees of subtrees; unlink
+        case(["freen", "0.9"], ["freen", "0.3"], ["freesib", "0.9"], ["freen", "0.0"], ["freesib", "1.1"], ["unlink", "1.0", 5], ["freesib", "5.0"],
+             ["freesib", "1.0"], ["unlink", "2.9", 5], ["free", 5], ["free", 4])
+        case(["chg", "0.8", h("999")], ["chg", "0.8", h("11")], ["chg", "0.8", h("12")], ["chg", "0.9", h("UP")], ["chg", "0.9", h("abc")],
+             ["chg", "0.10", h("nope")], ["chg", "0.14", h("300")], ["chg", "0.14", h("2")], ["chg", "0.14", h("9")], ["chg", "0.7", h("x")])
+        # dup with bad options / parents
+        case(["dup", "0.0", "~", _DUP_PARENTS, 5, "s", "~"], ["dup", "0.9", "~", _DUP_PARENTS | _DUP_REC, 5, "s", "~"], ["dup", "0.9", "1.0", _DUP_REC, 5, "s", "~"],
+             ["dup", "0.9", "0.0", _DUP_REC, 5, "s", "~"], ["dup", "0.9", "2.7", _DUP_REC, 5, "s", "~"], ["dup", "0.9", "3.0", _DUP_PARENTS, 5, "s", "~"],
+             ["dup", "0.9", "1.0", _DUP_PARENTS, 5, "b", "~"], ["dup", "0.0", "~", 0xffffffff, 5, "b", "~"], ["dup", "0.0", "~", _DUP_REC, 5, "b", "1"],
+             ["dup", "0.9", "2.7", _DUP_REC, 5, "s", "1"], ["dup", "0.9", "2.7", _DUP_REC, 5, "s", "0"], ["dup", "3.0", "~", _DUP_REC, 5, "b", "1"],
+             ["dup", "0.2", "1.0", 0, 5, "s", "~"], ["dup", "0.9", "0.1", 0, 5, "b", "~"])
+        # merge: destruct on success and on failure, other context, nested source/target
+        for opts in (0, _MERGE_DESTRUCT):
+            for how in "ts":
+                case(["merge", 0, 1, opts, how], ["merge", 0, 3, opts, how])
+                case(["merge", 0, 2, opts, how])
+                case(["merge", 2, 1, opts, how])
+                case(["unlink", "1.1", 5], ["merge", 0, 5, opts, how])
+                case(["unlink", "0.9", 5], ["merge", 5, 1, opts, how])
+                case(["merge", 4, 1, opts, how], ["merge", 4, 0, opts, how])
+        # data parser: malformed documents
+        bads = [base[:40], base[:-5], base.replace("<k2>1</k2>", "<k2>x</k2>"), base.replace("<k2>1</k2>", ""), base + '<zz %s/>' % _NSA,
+                base + base, base.replace("<s>abc</s>", "<s>ABC</s>"), base.replace("<lr>a</lr>", "<lr>zz</lr>"), base.replace("<man>m</man>", ""),
+                base.replace("<ca1>1</ca1>", "<ca1>1</ca1><cb1>3</cb1>"), base.replace("<i8>11</i8>", "<i8>1</i8>"),
+                base.replace("<i8>11</i8>", "<i8>1</i8><m>60</m>"), base.replace("<ul>2</ul>", "<ul>1</ul>"), "<c %s><zz/></c>" % _NSA, "<zz/>", "&", "<c %s>" % _NSA]
+        for po in (0, _P_STRICT, _P_OPAQ, _P_ONLY, _P_ONLY | _P_STRICT, _P_ONLY | _P_OPAQ):
+            case(*[P("0", d, 5, po) for d in bads], setup=[])
+        case(*[P("0", d, 5, po, 0, "j") for d, ok in _OWN_JSON for po in (0, _P_ONLY | _P_OPAQ, _P_STRICT)], setup=[])
+        case(*[["parsep", "0.3", "x", po, 0, h(d)] for d in ("<i8 %s>400</i8>" % _NSA, "<zz %s/>" % _NSA, "<sl %s>q</sl><i8 %s>x</i8>" % (_NSA, _NSA),
+                                                               "<ol %s><k>n</k></ol><ol %s><v>1</v></ol>" % (_NSA, _NSA), "<ul %s>7</ul" % _NSA)
+               for po in (_P_ONLY, _P_ONLY | _P_STRICT, 0)])
+        case(*[["parseop", "0", "x", ty, h(d), 5] for ty, d, ok in _OWN_OPS_XML], setup=[])
+        case(*[["parseop", "0", "j", ty, h(d), 5] for ty, d, ok in _OWN_OPS_JSON], setup=[])
+        case(["parseop", "0", "x", "r", h('<r %s><x>1</x></r>' % _NSB), 4],
+             *[["parseop", "0", "x", "y", h(d.replace(">", " " + _NSB + ">", 1) if d else d), 5, "4.0"] for d, ok in _OWN_REPLY_XML])
+        # diff: apply on a target that does not match; user-ordered create with a missing / unmatched anchor
+        case(["diff", 0, 1, 0, 4], ["apply", 1, 4], ["apply", 3, 4], ["apply", 5, 4], ["rev", 4, 5], ["apply", 0, 5], ["dmerge", 4, 5, 0], ["dmerge", 5, 4, 0],
+             ["apply", 0, 4], ["apply", 0, 4])
+        case(["diff", 1, 0, 1, 4], ["free", 1], ["apply", 1, 4], ["diff", 0, 2, 0, 5])
+        ops = [('<ul2 %s %s yang:operation="create"><k>z</k></ul2>', "nometa-list"), ('<ul2 %s %s yang:operation="create" yang:key="[k=\'nope\']"><k>z</k></ul2>', "anchor-list"),
+               ('<tul %s %s yang:operation="create">z</tul>', "nometa-leaflist"), ('<tul %s %s yang:operation="create" yang:value="nope">z</tul>', "anchor-leaflist"),
+               ('<c %s %s yang:operation="none"><ol yang:operation="create"><k>q</k></ol></c>', "nometa-nested"),
+               ('<c %s %s yang:operation="none"><ol yang:operation="create" yang:key="[k=\'nope\']"><k>q</k></ol></c>', "anchor-nested"),
+               ('<c %s %s yang:operation="none"><ul yang:operation="create">8</ul></c>', "nometa-nested-ll"),
+               ('<c %s %s yang:operation="none"><ul yang:operation="create" yang:value="77">8</ul></c>', "anchor-nested-ll"),
+               ('<kl %s %s yang:operation="create"><a>q</a></kl>', "nometa-keyless"), ('<kl %s %s yang:operation="create" yang:position="7"><a>q</a></kl>', "anchor-keyless"),
+               ('<sll %s %s yang:operation="create">q</sll>', "nometa-state-ll"), ('<sll %s %s yang:operation="create" yang:position="x">q</sll>', "anchor-state-ll"),
+               ('<ul2 %s %s yang:operation="replace"><k>a</k></ul2>', "nometa-move"), ('<ul2 %s %s yang:operation="replace" yang:key="[k=\'nope\']"><k>a</k></ul2>', "anchor-move"),
+               ('<ul2 %s %s yang:operation="create" yang:key=""><k>z</k><v yang:operation="bogus">1</v></ul2>', "bad-op-child"),
+               ('<ul2 %s %s><k>z</k></ul2>', "no-op"), ('<top %s %s yang:operation="replace" yang:orig-value="zz" yang:orig-default="false">new</top>', "replace"),
+               ('<top %s %s yang:operation="delete">zz</top><l %s yang:operation="delete"><k1>q</k1><k2>9</k2></l>', "delete-missing")]
+        for d, nm in ops:
+            d = d % ((_NSA, _NSY) + ((_NSA + " " + _NSY,) if d.count("%s") == 3 else ()))
+            case(P("0", d, 4, _P_ONLY), ["apply", 0, 4], ["apply", 3, 4], ["apply", 5, 4], ["rev", 4, 5], ["dmerge", 4, 5, 0], ["diff", 0, 1, 0, 6], ["dmerge", 6, 4, 0],
+                 ["dmerge", 4, 6, 1])
+        # the same anchors taken from a generated diff applied to a tree that lost the anchor instance
+        case(["diff", 0, 1, 0, 4], ["freen", "0.28"], ["freen", "0.27"], ["freen", "0.20"], ["apply", 0, 4])
+        # validation failures with and without the diff output
+        inval = [base.replace("<man>m</man>", ""), base.replace("<i8>11</i8>", "<i8>1</i8>"), base.replace("<lr>a</lr>", "<lr>zz</lr>"),
+                 base.replace("<ca1>1</ca1>", "<ca1>1</ca1><cb1>3</cb1>"), base.replace("<w>w</w>", "<w>w</w><m>60</m>"), base + '<l %s><k1>c</k1><k2>3</k2><v>v1</v></l>' % _NSA,
+                 base.replace("<ul>2</ul>", "<ul>1</ul>"), base + st]
+        for d in inval:
+            case(P("0", d, 0, _P_ONLY | _P_WHEN_TRUE), ["val", 0, "~", 0, 1, 4], ["val", 0, "~", _V_MULTI, 0, 4], ["val", 0, "1", 0, 1, 4], ["valmod", 0, "a0", _V_NOSTATE, 1, 4],
+                 ["valmod", 0, "a1", 0, 1, 4], ["valmod", 0, "b0", 0, 1, 4], ["val", 0, "~", _V_PRESENT | _V_NOSTATE, 1, 4], ["impl", 0, "~", 0, 1, 4], ["impl", 0, "1", 0, 1, 4],
+                 ["val", 5, "~", 0, 1, 4], ["val", 5, "0", 0, 1, 4], ["impl", 5, "0", 0, 1, 4], setup=[])
+        case(["parseop", "0", "x", "r", h('<r %s><y>zz</y></r>' % _NSB), 4], ["valop", "4.0", "~", "r", 1, 5], ["valop", "4.0", 0, "r", 1, 5], ["valop", "4.0", 0, "y", 1, 5],
+             ["valop", "4.0", 0, "n", 1, 5], ["valop", "0.0", "~", "r", 1, 5], ["valop", "4.0", 2, "r", 1, 5])
+        case(*[[c, "0.%d" % i, h(e)] for e in _OWN_XPATH_BAD for c, i in (("xfind", 0), ("xeval", 3))])
+        case(*[["print", "0.%d" % i, f, o] for f in "xjb" for o in (0, 1, 0x41, 0x81) for i in (0, 3)], ["print", "5.0", "x", 0])
+        # failing module loads into the live contexts while data exist
+        for i in range(0, len(_OWN_MODS_BAD), 8):
+            case(*[["lys", c, h(m)] for m in _OWN_MODS_BAD[i:i + 8] for c in "01"], ["val", 0, "~", _V_PRESENT, 0, 5], ["dup", "0.0", "~", _DUP_REC, 5, "b", "~"])
+        case(["lys", "0", h(_OWN_MODS_OK[0])], ["lys", "0", h(_OWN_MOD_V1_BROKEN_REV)], ["lys", "0", h(_OWN_MODS_OK[0])], ["lys", "1", h(_OWN_MODS_OK[1])],
+             ["lys", "0", h(_OWN_MODS_BAD[3])], ["val", 0, "~", 0, 0, 5], ["path", "0.0", "~", h("/v1:vc/x"), h("1"), 0], ["path", "0.0", "~", h("/v1:vc/x"), h("999"), _NEW_PATH_UPDATE])
+        return L
+
+    def gen(self, rng, tier, scale=1.0):
+        L = self.fixed()
+        dg = _OwnDoc(rng)
+        for _ in range(self.n(tier, 1500, 60000, scale)):
+            cmds = []
+            nslots = rng.choice([2, 3, 3, 4])
+            for s in range(nslots):
+                inv = rng.random() < 0.15
+                ctx = "1" if rng.random() < 0.12 else "0"
+                cmds.append(self.parse(ctx, dg.doc(invalid=inv, bad=0.2 if inv else 0.0), s, rng.choice([_P_ONLY, _P_ONLY, 0, _P_ONLY | _P_OPAQ]),
+                                       rng.choice([0, 0, _V_PRESENT])))
+            if rng.random() < 0.5:
+                cmds.append(["diff", 0, 1, rng.choice([0, 1]), 4])
+            for _ in range(rng.choice([6, 10, 14, 20, 30])):
+                cmds.append(self.rand_cmd(rng, dg))
+            L.append(_own_line(cmds))
+        return L
+
+    # ---- verdict ----------------------------------------------------------------------------------------------------
+    END = _re.compile(r"end:d(-?\d+),(-?\d+)/(-?\d+),(-?\d+):w(\d+):k(\d+)(?:@(-?\d+):([a-z0-9]+)(?:~([a-z0-9-]*))?)?:l(\d+)$")
+    FLAG = _re.compile(r"(OUT|CHG|UNREL|LINK|FREED|NC|REST|DICT|CTX|NOTFIRST)!")
+    FLAGTAG = {"OUT": "out-not-null", "CHG": "input-changed", "UNREL": "unrelated-changed", "LINK": "link-broken", "FREED": "input-freed",
+               "NC": "not-consumed", "REST": "free-changed-rest", "DICT": "dict-changed-by-failed-load", "CTX": "context-broken-by-load",
+               "NOTFIRST": "not-first-sibling"}
+
+    def judge(self, line, out):
+        if out.startswith("CRASH(") or out == "TIMEOUT":
+            m = _re.search(r"OWNCMD (-?\d+) (\S+)", getattr(self, "last_err", "") or "")
+            return ("crash:" + m.group(2) if m else "crash", "%s %s" % (out, ("in command %s (%s)" % (m.group(1), m.group(2))) if m else ""))
+        parts = out.split(" | ")
+        if out.startswith("SETUP-FAILED"):
+            return (None, out)
+        m = self.END.search(parts[-1])
+        if not m:
+            return (None, "malformed driver answer: " + out[-200:])
+        for i, p in enumerate(parts[:-1]):
+            f = self.FLAG.search(p)
+            if f:
+                cmd, _, rest = p.partition(":")
+                rcs = _re.match(r"-?\d+|-|\?", rest)
+                tag = "%s:%s" % (self.FLAGTAG[f.group(1)], cmd)
+                if f.group(1) == "NC" and rcs and rcs.group(0) == "3":
+                    tag = "merge-destruct-einval-source-not-consumed"
+                return (tag, "command %d %s" % (i, p))
+            if p.endswith(":?"):
+                return (None, "generator produced a malformed command %d: %s" % (i, p))
+        du0, dr0, du1, dr1, w, k, kidx, kcmd, kerr, lsan = m.groups()
+        if int(k):
+            tag = "leak:%s" % kcmd + ("~" + kerr if kerr else "")
+            if kcmd == "apply" and kerr == "failed-to-find-metadata-for-node":
+                tag = "diff-apply-userord-create-nometa-leak"
+            return (tag, "%s block(s) allocated from command %s (%s) on are never freed; %s" % (k, kidx, kcmd, parts[-1]))
+        if (du0, dr0, du1, dr1) != ("0", "0", "0", "0"):
+            return ("dict-delta", "dictionary strings/references left after everything was freed: " + parts[-1])
+        if w != "0":
+            return ("not-freed-warning", parts[-1])
+        if lsan == "1":
+            return ("lsan-leak", parts[-1])
+        return None
